@@ -388,8 +388,11 @@ namespace chaiscript {
                                         assert(children.size() == 1);
                                         chaiscript::eval::detail::Scope_Push_Pop spp(t_ss);
 
-                                        int i = start_int;
-                                        t_ss.add_object(id, var(&i));
+                                        // the counter is visible to the script as a variable: a lambda capture or a
+                                        // reference may outlive the loop, so it must not live on this stack frame
+                                        const auto counter = std::make_shared<int>(start_int);
+                                        int &i = *counter;
+                                        t_ss.add_object(id, var(counter));
 
                                         try {
                                           for (; i < end_int; ++i) {
